@@ -27,7 +27,9 @@ const GARBAGE_CELLS: u64 = IMPOSTOR_CELLS;
 const SAMENAME_CELLS: u64 = 12;
 /// host names with a leading dot, a trailing dot or an empty label x hostname waiver
 const ODDNAME_CELLS: u64 = 16;
-pub const CELLS: u64 = MATRIX + TUNNEL_CELLS + IMPOSTOR_CELLS + NOTYET_CELLS + GARBAGE_CELLS + SAMENAME_CELLS + ODDNAME_CELLS;
+/// an intermediate CA, a client-only key usage, a name in the CN only: 4 fixtures x certs x hosts x root
+const CHAINSHAPE_CELLS: u64 = 32;
+pub const CELLS: u64 = MATRIX + TUNNEL_CELLS + IMPOSTOR_CELLS + NOTYET_CELLS + GARBAGE_CELLS + SAMENAME_CELLS + ODDNAME_CELLS + CHAINSHAPE_CELLS;
 
 #[derive(Clone, Copy, Debug, PartialEq, Eq)]
 enum Chain {
@@ -300,6 +302,76 @@ fn odd_name_cell(g: &mut G, ctx: &RunCtx, cell: u64) -> RunReport {
     RunReport { verdict, shape: tag.clone(), nontrivial: true, stats, sched_tape: out.sched_tape, describe: if ctx.describe { format!("odd name cell {}: {} result={:?} plaintext_in={}", cell, tag, out.result, plain_in) } else { String::new() } }
 }
 
+/// Chains and leaves of other shapes than the matrix has: a leaf issued by an intermediate CA (the server sends
+/// both), a leaf whose extended key usage allows client authentication only, a leaf that names its host in the
+/// subject's CN and nowhere else.  Direct route, flags on the request.
+fn chain_shape_cell(g: &mut G, ctx: &RunCtx, cell: u64) -> RunReport {
+    let _ = g;
+    let fixture = ["viaint", "viaint-wrongname", "clientonly", "cnonly"][(cell % 4) as usize];
+    let accept_certs = (cell / 4) % 2 == 1;
+    let accept_hosts = (cell / 8) % 2 == 1;
+    let root_added = (cell / 16) % 2 == 1;
+    // (chain valid with our CA added, certificate names secure.test)
+    let (chain, name) = match fixture {
+        "viaint" => (root_added, true),
+        "viaint-wrongname" => (root_added, false),
+        // never valid for a server, whatever root is added
+        "clientonly" => (false, true),
+        // a name in the CN only: OpenSSL falls back to it, webpki does not - not decided here
+        _ => (root_added, false),
+    };
+    let want_ok = accept_certs || (chain && (name || accept_hosts));
+    let undecided = fixture == "cnonly" && root_added && !accept_certs && !accept_hosts;
+    let sim = Sim::new(ctx.sim_config());
+    let ip: IpAddr = "10.0.0.5".parse().unwrap();
+    sim.add_host("secure.test", vec![ip]);
+    let seen = Arc::new(Mutex::new(Seen::default()));
+    let log = Arc::new(Mutex::new(TlsLog::default()));
+    {
+        let (seen, log) = (seen.clone(), log.clone());
+        sim.add_listener(
+            ip,
+            443,
+            ConnectBehaviour::Accept { latency_ns: NS_PER_MS },
+            Some(Box::new(move |i| {
+                let http = HttpPeer::new(Arc::new(|_r, _c| ok_script("secret")), seen.clone());
+                Box::new(TlsPeer::new(fixture, Box::new(http), log.clone(), i.conn))
+            })),
+        );
+    }
+    let out = sim.run(move || {
+        let mut rb = attohttpc::get("https://secure.test/private").proxy_settings(attohttpc::ProxySettings::builder().build());
+        if root_added {
+            rb = rb.add_root_certificate(cert_of(tlspeer::CA_PEM));
+        }
+        if accept_certs {
+            rb = rb.danger_accept_invalid_certs(true);
+        }
+        if accept_hosts {
+            rb = rb.danger_accept_invalid_hostnames(true);
+        }
+        match rb.send() {
+            Ok(r) => Ok(r.status().as_u16()),
+            Err(e) => Err(err_kind(&e)),
+        }
+    });
+    let mut stats = Stats::default();
+    stats.absorb(&out.history);
+    let plain_in: usize = log.lock().unwrap().sessions.iter().map(|s| s.plaintext_in).sum();
+    let tag = format!("ChainShape:{}:certs={}:hosts={}:root={}", fixture, accept_certs, accept_hosts, root_added);
+    let verdict = match &out.result {
+        None => violation("hang", "torn down"),
+        Some(Err(m)) => violation("panic", m.clone()),
+        Some(Ok(_)) if undecided => Verdict::Pass,
+        Some(Ok(Ok(200))) if want_ok => Verdict::Pass,
+        Some(Ok(Ok(st))) if !want_ok => violation(format!("unauthenticated-peer-accepted:ChainShape:{}", fixture), format!("the exchange succeeded with status {} although the peer must be rejected ({})", st, tag)),
+        Some(Ok(Err(_))) if !want_ok && plain_in > 0 => violation(format!("request-sent-to-unauthenticated-peer:ChainShape:{}", fixture), format!("{} plaintext bytes reached the peer ({})", plain_in, tag)),
+        Some(Ok(Err(_))) if !want_ok => Verdict::Pass,
+        Some(Ok(other)) => violation(format!("authenticated-peer-rejected:ChainShape:{}", fixture), format!("expected success ({}), got {:?}", tag, other)),
+    };
+    RunReport { verdict, shape: tag.clone(), nontrivial: true, stats, sched_tape: out.sched_tape, describe: if ctx.describe { format!("chain shape cell {}: {} expect_ok={} result={:?}", cell, tag, want_ok, out.result) } else { String::new() } }
+}
+
 /// The first TLS exchange of the process is always the same one: a session that adds the fixtures' CA as a
 /// root (both flags off) talks to a peer with a good certificate.  Anything the library keeps for the whole
 /// process and fills on first use is thereby filled by a handshaker *with* an extra root - the cells that
@@ -338,6 +410,9 @@ pub fn scenario(g: &mut G, ctx: &RunCtx) -> RunReport {
         // the matrix cell with the same name / flags / root / route, chain to the added root, flags on the
         // session - presented by somebody who does not hold the certificate's key
         let mut i = cell - MATRIX - TUNNEL_CELLS;
+        if i >= 3 * IMPOSTOR_CELLS + SAMENAME_CELLS + ODDNAME_CELLS {
+            return chain_shape_cell(g, ctx, i - 3 * IMPOSTOR_CELLS - SAMENAME_CELLS - ODDNAME_CELLS);
+        }
         if i >= 3 * IMPOSTOR_CELLS + SAMENAME_CELLS {
             return odd_name_cell(g, ctx, i - 3 * IMPOSTOR_CELLS - SAMENAME_CELLS);
         }
